@@ -32,12 +32,16 @@ def outer2 {n0 n1} (v0 : Tab α n0) (v1 : Tab α n1) : Tab α (n0 * n1) :=
 def outer3 {n0 n1 n2} (v0 : Tab α n0) (v1 : Tab α n1) (v2 : Tab α n2) : Tab α (n0 * n1 * n2) :=
   Vector.ofFn fun k => let d := idx3 k; v0[d.1] * v1[d.2.1] * v2[d.2.2]
 
-/-- the part shared by both product implementations: (b, u, a) before validation / normalisation -/
+/-- the part shared by both product implementations: (b, u, a) before validation / normalisation.
+    Cells of zero base rate are skipped (`filter(a > 0)`); an empty filter makes `reduce(..).unwrap()` panic in Rust,
+    the model returns NaN there (not reachable when the base rates are distributions). -/
 def product2Raw {n0 n1} (w0 : Opinion α n0) (w1 : Opinion α n1) : Opinion α (n0 * n1) :=
   let p := outer2 w0.projection w1.projection
   let a := outer2 w0.a w1.a
   let bb := outer2 w0.b w1.b
-  let u := Tab.reduceMin (Vector.ofFn fun k : Fin (n0 * n1) => (p[k] - bb[k]) / a[k])
+  let u := Tab.reduceL Scalar.min
+    (((List.finRange (n0 * n1)).filter fun k => Scalar.gt a[k] Scalar.zero).map fun k => (p[k] - bb[k]) / a[k])
+    (Tab.nanOf α)
   let b : Tab α (n0 * n1) := Vector.ofFn fun k => p[k] - a[k] * u
   ⟨b, u, a⟩
 
@@ -46,7 +50,9 @@ def product3Raw {n0 n1 n2} (w0 : Opinion α n0) (w1 : Opinion α n1) (w2 : Opini
   let p := outer3 w0.projection w1.projection w2.projection
   let a := outer3 w0.a w1.a w2.a
   let bb := outer3 w0.b w1.b w2.b
-  let u := Tab.reduceMin (Vector.ofFn fun k : Fin (n0 * n1 * n2) => (p[k] - bb[k]) / a[k])
+  let u := Tab.reduceL Scalar.min
+    (((List.finRange (n0 * n1 * n2)).filter fun k => Scalar.gt a[k] Scalar.zero).map fun k => (p[k] - bb[k]) / a[k])
+    (Tab.nanOf α)
   let b : Tab α (n0 * n1 * n2) := Vector.ofFn fun k => p[k] - a[k] * u
   ⟨b, u, a⟩
 
